@@ -162,7 +162,11 @@ class CircuitWorld(World):
         out = []
         for _ in range(k):
             if cfg["measure"] and rng.random() < 0.08:
-                out.append(["MEASURE", [rng.randrange(n)], None, "", False])
+                if rng.random() < 0.4:      # measurement-controlled gate (dictionary control): counts for the mixed-state flag
+                    q = rng.randrange(n)
+                    out.append(["CMEASURE", [q], None, {"0": [], "1": [["X", [q], None, "", False]]}, False])
+                else:
+                    out.append(["MEASURE", [rng.randrange(n)], None, "", False])
             else:
                 out.append(C.gen_gate_j(rng, n, allow=cfg["gate_kinds"], sym_p=0.25 if cfg["symbolic"] else 0.0))
         return out
